@@ -228,8 +228,11 @@ def run(rep: common.Report, tier: str, seed: int):
         seen.add(h)
         if nontrivial(np.array(c['matrix']), c['stream']):
             nt += 1
+    import c03
+    n_sw = c03.several_writes(rep, 'C01', tier, seed)      # several paths in one file (op lists: C03's session checker)
+    hist['streams']['several-writes-in-one-file'] = n_sw
     rep.coverage.update({
-        'evaluations': len(cases), 'distinct_nontrivial': nt,
+        'evaluations': len(cases) + n_sw, 'distinct_nontrivial': nt,
         'rule': 'case = (cfg, point matrix, bare/session); non-trivial: >=1 shutter change and >=3 distinct positions, and for '
                 'the lattice/pattern streams a shutter change that coincides with a displacement',
         'samples': [cases[i] for i in (0, len(cases) // 2, len(cases) - 1)],
@@ -239,6 +242,9 @@ def run(rep: common.Report, tier: str, seed: int):
 
 def replay(data):
     c = data['input']
+    if 'ops' in c:
+        import c03
+        return c03.replay(data, 'C01')
     mat = np.array(c['matrix'], dtype=np.dtype(c.get('dtype', 'float32')))
     common.fresh_cwd('C01')
     text, raised, dwell = run_impl(c['cfg'], mat, c['bare'])
